@@ -75,13 +75,14 @@ def coq_net_case(case, o, failrun):
             f"{coq_bool(o['ret'].startswith('raise'))}")
 
 
-class C04(Prop):
+class C04(netlib.Guarded, Prop):
     ID = "C04"
     PROPS_FILE = "Props/C04.v"
     CORR_MODULE = "Net.Corr"
     LEVEL = "proof"
     MAX_WORKERS = 6
-    CASE_TIMEOUT = 120
+    CASE_TIMEOUT = netlib.GUARD_CASE_TIMEOUT      # outer guard only: a hang verdict is structural (see netlib)
+    SHARD_TIMEOUT = netlib.GUARD_SHARD_TIMEOUT
     LEVEL_TEXT = (
         "Theorems (Coq, closed) over a network model: steps are deterministic round machines over single-writer ports "
         "listed in topological order; an execution is ANY list of scheduling choices. Proved for every such network "
@@ -197,8 +198,11 @@ class C04(Prop):
 
     # ------------------------------------------------------------------ oracle (from the property text)
     def oracle(self, c, o):
-        if "crash" in o or "hang" in o:
-            return ("hang", f"the run crashed or hung: {str(o)[:300]}")
+        o = self.resolve(c, o)
+        if o is None:
+            return None                     # the wall-clock guard expired twice: no verdict
+        if "crash" in o:
+            return ("crash", f"the harness could not contain the run: {str(o)[:300]}")
         if c["f"] != "net":
             return None
         if o["ret"] == "hang":
@@ -227,7 +231,8 @@ class C04(Prop):
 
     # ------------------------------------------------------------------ model side
     def coq_case(self, c, o):
-        if "crash" in o or "hang" in o:
+        o = self.resolve(c, o)
+        if o is None or "crash" in o:
             return None
         f = c["f"]
         if f == "reduce":
@@ -262,6 +267,7 @@ class C04(Prop):
         return c["f"] != "net" or len(c["steps"]) >= 2 or any(s.get("fail") for s in c["steps"])
 
     def signature(self, c, o, clause):
+        o = self.resolve(c, o) or {}
         if c["f"] != "net":
             return f"{c['f']}/{clause}"
         path = "cancel" if any(e[0] == "cancel" for e in o.get("exec", [])) else "close"
@@ -292,7 +298,7 @@ class C04(Prop):
                 yield d
 
     def extra_samples(self):
-        return []
+        return [self.guard_sample()]
 
 
 class _Both(C04):
